@@ -243,6 +243,28 @@ def run(facts, R):
                     "`in_flight + chunk_len <= window_bytes`; guards: %s" % texts(fs), s.get("span"),
                     "in_flight==0" if idle else "in_flight+chunk_len<=window_bytes")
 
+    # ... against *the configured* window: `window_bytes` is set when the control is built and nothing changes it afterwards.
+    # A store into an existing control (field store, or a whole-state overwrite such as `*guard = Inner { ..fresh }`) must put
+    # the field's own previous value back
+    n_wb = 0
+    for w in field_writes(facts, INNER, "window_bytes"):
+        b_ = w["body"]
+        if w["kind"] != "store":
+            R.bad("credit-predicate", b_.path, "window is fixed", "window_bytes is borrowed mutably / written through %s" % w["kind"], w.get("span"))
+            continue
+        locks_ = [1 for _, t_ in b_.calls() if t_["callee"]["name"] == "lock" and "Mutex" in t_["callee"]["path"]]
+        if not locks_:
+            continue      # a constructor: there is no earlier value
+        n_wb += 1
+        from analysis.sym import split_rows as _sr
+        s_ = Sym(b_)
+        alts_ = (_sr(s_, w["bb"], w["idx"], w["rv"]) if getattr(b_, "changed", False) else None) or [({}, s_.rvalue(w["rv"]))]
+        for _, v_ in alts_:
+            r_ = render(v_)
+            R.check(_is_f(v_, "window_bytes") and "lock(" in r_, "credit-predicate", b_.path, "window is fixed",
+                    "window_bytes of a live control is overwritten with %s: credit is then granted against another quantity than the configured window" % r_[:120],
+                    w.get("span"), "window_bytes := its own previous value")
+
     wr = facts.body(TC + "::wait_for_reconnect")
     sym = Sym(wr)
     rdy = blocks_assigning_variant(wr, "stream::ReconnectOutcome", "ResumeReady")
